@@ -178,13 +178,16 @@ def run_barrier_witness(ctx):
         ctx.cov["evaluations"] += 1
     ctx.cov["barrier_witness"] = res
     ctx.cov["evaluations"] += 2
-    if a == "assert-fails" and b != "assert-fails":
-        # the two orders of a declared-independent, co-enabled pair differ on the real implementation
-        ctx.violation("BARRIER_ASYNC_LOCK x BARRIER_ASYNC_LOCK on one barrier is declared independent, but on a barrier that is "
-                      "one short of full the two orders lead to different states (replays differ: %s vs %s)%s" % (
-                          a, b, "; reductions %s finish with exit 0 on the program although the failing execution exists" % missed if missed else ""),
+    # Since the repair the pair is declared DEPENDENT (theorem barrier_lock_lock_counterexample + REGRESSION queries): that the
+    # two orders differ (a vs b) is no longer a violation by itself.  What must hold: every reduction finds the failing execution.
+    if a == "assert-fails" and b != "assert-fails" and missed:
+        ctx.violation("BARRIER_ASYNC_LOCK x BARRIER_ASYNC_LOCK on a barrier that is one short of full: the two orders lead to "
+                      "different states (replays differ: %s vs %s) and reductions %s finish with exit 0 on the program although the "
+                      "failing execution exists" % (a, b, missed),
                       {"program": "props/C39/witness_barrier.cpp", "replay_failing": "1;3;1;2;3;3;1;4;3;4",
                        "replay_passing": "1;2;1;3;2;2;1;4;2;4", "results": res}, key=KEY_BARRIER)
+    elif not (a == "assert-fails" and b != "assert-fails"):
+        ctx.broken.append({"kind": "witness-no-longer-replays", "what": "witness_barrier.cpp", "results": res})
 
 
 KEY_COMMTEST = "comm-test-vs-async-send-recv-unpaired"
@@ -220,12 +223,30 @@ def run_commtest_witness(ctx):
         ctx.cov["evaluations"] += 1
     ctx.cov["commtest_witness"] = res
     ctx.cov["evaluations"] += 2
-    if a == "assert-fails" and b != "assert-fails":
-        ctx.violation("COMM_TEST on an unpaired comm x COMM_ASYNC_SEND on its mailbox is declared independent, but the test result "
-                      "differs in the two orders (replays: %s vs %s)%s" % (a, b, "; reductions %s finish with exit 0 although the failing "
-                                                                          "execution 1;2;1 exists" % missed if missed else ""),
+    # repaired: the pair is declared dependent (comm_send_test_counterexample + REGRESSION queries); every reduction run here
+    # must find the failing execution
+    if a == "assert-fails" and b != "assert-fails" and missed:
+        ctx.violation("COMM_TEST on an unpaired comm x COMM_ASYNC_SEND on its mailbox: the test result differs in the two orders "
+                      "(replays: %s vs %s) and reductions %s finish with exit 0 although the failing execution 1;2;1 exists" % (a, b, missed),
                       {"program": "props/C39/witness_commtest.cpp", "replay_failing": "1;2;1", "replay_passing": "1;1;2",
                        "results": res}, key=KEY_COMMTEST)
+    elif not (a == "assert-fails" and b != "assert-fails"):
+        ctx.broken.append({"kind": "witness-no-longer-replays", "what": "witness_commtest.cpp", "results": res})
+
+
+# Witness pairs of the repaired defects: the real dispatch_depends must answer "dependent" in both directions (and
+# "independent" on the control pairs).  A different answer is the old defect back: violation under its old key.
+REGRESSION = {
+    "dep BARRIER_ASYNC_LOCK 1 0 0 | BARRIER_ASYNC_LOCK 2 0 0": ("1", KEY_BARRIER),
+    "dep BARRIER_ASYNC_LOCK 1 0 0 | BARRIER_ASYNC_LOCK 2 0 1": ("0", None),
+    "dep BARRIER_WAIT 1 0 0 | BARRIER_WAIT 2 0 0": ("0", None),
+    "dep COMM_TEST 1 0 7 -1 1 0 | COMM_ASYNC_SEND 2 0 0 0 0": ("1", KEY_COMMTEST),
+    "dep COMM_TEST 1 0 7 1 -1 0 | COMM_ASYNC_RECV 2 0 0 0 0": ("1", KEY_COMMTEST),
+    "dep COMM_TEST 1 0 7 -1 1 0 | COMM_ASYNC_SEND 2 0 0 1 0": ("0", None),
+    "dep COMM_TEST 1 0 7 3 1 0 | COMM_ASYNC_SEND 2 0 0 0 0": ("0", None),
+    "dep ACTOR_CREATE 1 0 3 | RANDOM 3 0 0 1": ("1", "random-indep-of-own-actor-create"),
+    "dep ACTOR_CREATE 1 0 3 | RANDOM 2 0 0 1": ("0", None),
+}
 
 
 def run(ctx):
@@ -257,7 +278,7 @@ def run(ctx):
     if ctx.replay:
         queries = [(json.load(open(ctx.replay))["case"]["query"], (None, None, False))]
     else:
-        queries = [(c, (None, None, False)) for c in corpus] + gen_queries(SplitMix(ctx.seed), n)
+        queries = [(c, (None, None, False)) for c in corpus + [q for q in REGRESSION if q not in corpus]] + gen_queries(SplitMix(ctx.seed), n)
     rc, out, err = ctx.run_lines([h], [q for q, _ in queries], timeout=1500)
     if rc != 0 or len(out) != len(queries):
         ctx.broken.append({"kind": "harness-run", "rc": rc, "stderr": err[-2000:], "lines": len(out)})
@@ -280,6 +301,10 @@ def run(ctx):
         if ans[0] != ans[1]:
             ctx.violation("dispatch_depends is not symmetric: t1.depends(t2)=%s but t2.depends(t1)=%s" % tuple(ans),
                           {"query": q, "impl": l}, key=None)
+            continue
+        if q in REGRESSION and ans[0] != REGRESSION[q][0]:
+            ctx.violation("witness pair of a repaired defect: dispatch_depends answers %s, expected %s" % (ans[0], REGRESSION[q][0]),
+                          {"query": q, "impl": l}, key=REGRESSION[q][1])
             continue
         if u1 and u2 and table:
             ia, ib = sorted((table["types"].index(u1), table["types"].index(u2)))
@@ -305,7 +330,7 @@ def run(ctx):
     if not ctx.replay:
         run_barrier_witness(ctx)
         run_commtest_witness(ctx)
-    ctx.cov["samples"] = out[:2] + out[len(corpus):len(corpus) + 4]
+    ctx.cov["samples"] = out[:2] + out[len(corpus) + len(REGRESSION):len(corpus) + len(REGRESSION) + 4]
     if table:
         n_t = len(table["types"])
         reachable = [(i, j) for i in range(n_t) for j in range(i, n_t)
